@@ -917,6 +917,22 @@ def run(chk):
             elif runtime:
                 chk.violation(r_fs, key, "%s converts the run-time value(s) %s through the hard-coded %s; only compile-time keyword defaults are known to be in that system" % (f["q"], runtime[:3], (o.get("fn") or "").split("::")[-1]), f["file"], n["l"])
 
+    # ---- C02.paramused: a unit argument that is accepted is used
+    r_pu = chk.rule("C02.paramused", "UnitSystem.cpp, Dimension.cpp, RestartValue.cpp, data/Solution.cpp: every named parameter whose type is UnitSystem::measure, UnitSystem or Dimension is referenced in the function that takes it - an overload that forwards to another one must pass the measure on (a forwarding overload that substitutes measure::identity stores the array as dimensionless, and the conversion on output silently does nothing)", floor=20)
+    for f in fx.fns:
+        if not f.get("body") or not f["file"].startswith(core.REPO + "/opm/") or not f["file"].endswith(".cpp"):
+            continue
+        ups = [p_ for p_ in f.get("params") or [] if p_.get("n") and re.search(r"\bmeasure\b|\bUnitSystem\b|\bDimension\b", p_.get("t") or "")]
+        if not ups:
+            continue
+        parts_ = [f.get("body")] + [ci.get("init") for ci in (f.get("inits") or []) if isinstance(ci, dict)]
+        refs = {x.get("n") for part in parts_ if isinstance(part, (dict, list)) for x in (walk(part) if isinstance(part, dict) else [y for q_ in part if isinstance(q_, dict) for y in walk(q_)]) if x.get("k") == "Ref"}
+        for p_ in ups:
+            key = "%s:%s@%d" % (f["q"], p_["n"], f["l"])
+            chk.instance(r_pu, key, sample=dict(function=f["q"], parameter=p_["n"], type=p_.get("t"), used=p_["n"] in refs))
+            if p_["n"] not in refs:
+                chk.violation(r_pu, key, "%s takes `%s` (%s) and never uses it: whatever unit the caller names is ignored" % (f["q"], p_["n"], p_.get("t")), f["file"], f["l"])
+
     from verif import rawget
     rawget.run(chk, "C02", floor=6)
     from verif import fallthrough
